@@ -42,8 +42,14 @@ fn run_layout(input: &[u8]) -> (Vec<usize>, Vec<usize>) {
 pub fn generate(rng: &mut Rng, seed: u64, run: u64, max_len: usize) -> Trace {
     let surface = *rng.pick(&SURFACES);
     let flavor = if rng.chance(1, 2) { Flavor::Text } else { Flavor::Bytes };
-    let wl = gen::workload(rng, flavor, max_len);
-    let ops = gen_ops(rng, &wl, true);
+    let mut wl = gen::workload(rng, flavor, max_len);
+    let mut ops = gen_ops(rng, &wl, true);
+    if rng.chance(1, 6) {
+        // literal-only format strings: the `Arguments::as_str()` shape
+        let (bytes, lit_ops) = gen_literal_history(rng, 24);
+        wl = gen::Workload { bytes, toks: vec![] };
+        ops = lit_ops;
+    }
     let fault_free = rng.chance(1, 5);
     let faults = if fault_free {
         vec![]
@@ -154,6 +160,9 @@ impl Client<'_> {
             } else {
                 self.st.probe("fault_on_first_inner_write_of_call");
             }
+            if applied == Applied::FmtLit {
+                self.st.probe("fault_inside_literal_write_fmt");
+            }
             if applied == Applied::Fmt && name == "interrupted" {
                 self.st.probe("eintr_inside_write_fmt");
             }
@@ -200,6 +209,16 @@ impl Client<'_> {
             raised.iter().copied().filter(|k| *k != io::ErrorKind::Interrupted).collect();
 
         match (&r, applied) {
+            (OpResult::Panic(m), Applied::FmtFail) if m.contains("formatting trait implementation returned an error") => {
+                // std's own write_fmt panics when a Display impl fails although the stream did
+                // not; a stream that delegates to it inherits that.  Not an inner-writer error
+                // turned into success, so not this property's business.
+                self.st.probe("failing_display_panicked_like_std");
+                if let Some(v) = self.check_invariants(false, &what) {
+                    return Err(v);
+                }
+                return Ok(true);
+            }
             (OpResult::Panic(m), _) => return Err(viol("panic", format!("{what}: {m}")).unwrap()),
             (OpResult::NoProgress, _) => {
                 return Err(viol("no-progress", format!("{what}: the call did not return within the step budget")).unwrap())
@@ -233,7 +252,7 @@ impl Client<'_> {
                 }
                 Ok(!soft)
             }
-            (OpResult::Done, Applied::WriteAll | Applied::Fmt) => {
+            (OpResult::Done, Applied::WriteAll | Applied::Fmt | Applied::FmtLit) => {
                 if let Some(k) = hard_raised.first() {
                     return Err(viol("error-swallowed", format!("{what}: the inner writer raised {k:?} but the call reported success")).unwrap());
                 }
@@ -246,7 +265,7 @@ impl Client<'_> {
                 }
                 Ok(false)
             }
-            (OpResult::Err(k), Applied::WriteAll | Applied::Fmt) => {
+            (OpResult::Err(k), Applied::WriteAll | Applied::Fmt | Applied::FmtLit) => {
                 let expected = hard_raised.first().copied().or(if zeroes > 0 { Some(io::ErrorKind::WriteZero) } else { None });
                 match expected {
                     None => {
@@ -507,4 +526,50 @@ pub fn systematic(base: &Trace, st: &mut Stats) -> (u64, Option<(Trace, Outcome)
         }
     }
     (count, None)
+}
+
+/// One real-kernel fault next to the simulated ones: a strip stream over `/dev/full` (every write
+/// fails with ENOSPC).  The error must surface, with its kind, from `write`, `write_all` and
+/// `write!`; a buffer holding only escape sequences writes nothing and therefore succeeds.
+pub fn dev_full_check() -> Result<serde_json::Value, String> {
+    use std::fs::OpenOptions;
+    let open = || OpenOptions::new().write(true).open("/dev/full").map_err(|e| format!("cannot open /dev/full: {e}"));
+    let mut results = Vec::new();
+    let want = {
+        // what the kernel reports for a direct write
+        let mut f = open()?;
+        match f.write(b"x") {
+            Err(e) => e.kind(),
+            Ok(_) => return Err("/dev/full accepted a write".into()),
+        }
+    };
+    let mut check = |name: &str, r: io::Result<()>| -> Result<(), Violation> {
+        match r {
+            Err(e) if e.kind() == want => {
+                results.push(format!("{name}: Err({:?})", e.kind()));
+                Ok(())
+            }
+            Err(e) => Err(Violation { class: "error-kind".into(), detail: format!("/dev/full: {name} failed with {:?}, the kernel reports {want:?}", e.kind()) }),
+            Ok(()) => Err(Violation { class: "error-swallowed".into(), detail: format!("/dev/full: {name} reported success") }),
+        }
+    };
+    let run = |check: &mut dyn FnMut(&str, io::Result<()>) -> Result<(), Violation>| -> Result<(), Violation> {
+        let mut s = anstream::StripStream::new(open().map_err(|e| Violation { class: "harness".into(), detail: e })?);
+        check("StripStream<File>::write", s.write(b"\x1b[1mbold\x1b[0m").map(|_| ()))?;
+        check("StripStream<File>::write_all", s.write_all(b"\x1b[1mbold\x1b[0m"))?;
+        check("StripStream<File>::write_fmt", write!(s, "{}{}", "\x1b[1m", "bold"))?;
+        let mut a = anstream::AutoStream::never(open().map_err(|e| Violation { class: "harness".into(), detail: e })?);
+        check("AutoStream::never(File)::write_all", a.write_all(b"x\x1b[0m"))?;
+        check("AutoStream::never(File)::write_fmt", write!(a, "{}", "text"))?;
+        // nothing printable: nothing reaches the device
+        if let Err(e) = s.write_all(b"\x1b[1m\x1b[0m") {
+            return Err(Violation { class: "spurious-error".into(), detail: format!("/dev/full: writing only escape sequences failed with {:?}", e.kind()) });
+        }
+        Ok(())
+    };
+    match catch(|| run(&mut check)) {
+        Ok(Ok(())) => Ok(serde_json::json!({"device": "/dev/full", "kernel_error_kind": format!("{want:?}"), "calls": results})),
+        Ok(Err(v)) => Err(format!("{}: {}", v.class, v.detail)),
+        Err(_) => Err("panic: a write to /dev/full panicked".into()),
+    }
 }
